@@ -250,7 +250,8 @@ def proj_po(po, rt):
             "pts": [[rt.id(x) for x in row] for row in po.pointList]}
 
 
-def point_events(klass, lo, hi, pts, eid, workdir, compact=False, final_newline=True):
+def point_events(klass, lo, hi, pts, eid, workdir, compact=False, final_newline=True, default_span=False):
+    """default_span: the object is built without minTime/maxTime (documented defaults: 0 and the last point's time)"""
     _, data_points, data_point = mods()
     twoD = klass != "PointProcess"
     cls = data_point.PointObject2D if twoD else data_point.PointObject1D
@@ -261,7 +262,12 @@ def point_events(klass, lo, hi, pts, eid, workdir, compact=False, final_newline=
     st, back = "ok", None
     fn = os.path.join(workdir, "p-%d-%d" % (os.getpid(), eid))
     try:
-        po = cls(pts, klass, lo, hi)
+        if default_span and pts:
+            po = cls(pts, klass)
+            lo, hi = 0.0, max(row[0] for row in pts)
+            fl += [lo, hi]
+        else:
+            po = cls(pts, klass, lo, hi)
         po.save(fn)
         back = opener(fn)
         fl += [back.minTime, back.maxTime] + [x for row in back.pointList for x in row]
